@@ -102,6 +102,16 @@ class SymCtx(_Base):
   def eq(self, a, b):
     return symex.Eq(a, b)
 
+  def approx(self, a, b, tol=1e-6):
+    """Equality up to `tol` on the real stack (float32 storage etc.); exact
+    in the symbolic model."""
+    return symex.Eq(a, b)
+
+  @property
+  def np(self):
+    from engine import nplite  # pylint: disable=g-import-not-at-top
+    return nplite
+
   def msg_eq(self, a, b):
     """Value equality of two messages (shim) as a term."""
     return a._eq(b)
@@ -229,6 +239,15 @@ class ConcCtx(_Base):
 
   def eq(self, a, b):
     return _approx(a, b)
+
+  def approx(self, a, b, tol=1e-6):
+    return abs(float(a) - float(b)) <= tol * max(1.0, abs(float(a)),
+                                                 abs(float(b)))
+
+  @property
+  def np(self):
+    import numpy  # pylint: disable=g-import-not-at-top
+    return numpy
 
   def msg_eq(self, a, b):
     return a == b
